@@ -131,8 +131,10 @@ def project(raw_events, scenario, bound=None):
             dl = int(ev.get("deadlineMs") or 0)
         except ValueError:
             return "data-bad-deadline"
+        # deadline = arrival time + function timeout, whenever the event is handed over
+        # (one-sided slack for the harness' own time stamp taken just before Server.Invoke is entered)
         lo = info["now"] + timeout_ms - 3
-        hi = ev.get("nowMs", 0) + timeout_ms + 3
+        hi = info["now"] + timeout_ms + 25
         if not (lo <= dl <= hi):
             return "data-bad-deadline"
         if is_rt and (ev.get("ctx", "") or "") != info["ctx"]:
